@@ -189,8 +189,10 @@ def finish(prop, tier, seed, level, cases, *, rule, monitor_counts=None, floors=
     OUT = os.environ.get("ASIMAP_VERIF_OUT") or VERIF
     if new_viol:
         coverage["violation_kinds"] = Counter(str((c.get("witness") or {}).get("kind")) for c in new_viol).most_common(12)
+    replaying = bool(os.environ.get("ASIMAP_VERIF_REPLAYING"))
     os.makedirs(os.path.join(OUT, "evidence"), exist_ok=True)
-    with open(os.path.join(OUT, "evidence", prop + ".json"), "w") as f:
+    os.makedirs(os.path.join(OUT, "replays"), exist_ok=True)
+    with open(os.path.join(OUT, "replays", prop + ".last-replay-evidence.json") if replaying else os.path.join(OUT, "evidence", prop + ".json"), "w") as f:
         json.dump(ev, f, indent=1, default=repr)
         f.write("\n")
     for m, n in sorted(known_seen.items()):
@@ -216,7 +218,9 @@ def finish(prop, tier, seed, level, cases, *, rule, monitor_counts=None, floors=
     for k, v in (floors or {}).items():
         if mc.get(k, 0) < v:
             low.append(f"{k}={mc.get(k, 0)}<{v}")
-    if rc == 0 and (low or errors or len(inconc) > max(2, len(cases) // 10) or len(distinct) < 2):
+    if replaying:
+        low = []
+    if rc == 0 and not (replaying and not errors and not inconc) and (low or errors or len(inconc) > max(2, len(cases) // 10) or len(distinct) < 2):
         why = "; ".join(filter(None, [",".join(low), ("worker errors: " + errors[0][:300]) if errors else "",
                                       f"{len(inconc)} inconclusive cases" if len(inconc) > max(2, len(cases) // 10) else "",
                                       "fewer than 2 distinct non-trivial cases" if len(distinct) < 2 else ""]))
